@@ -32,3 +32,31 @@ Print Assumptions C14_attr_layouts.
 Theorem C14_constants_agree : forall n v, In (n, v) Py.used_consts -> lookup K.consts n = Some v.
 Proof. exact constants_agree. Qed.
 Print Assumptions C14_constants_agree.
+
+From Coq Require Import NArith.
+From VLib Require Import Bytes.
+From Xfrm Require Import Params Gen.XfrmBuild XfrmModel KernelSpec XfrmProofs.
+
+(** FLUSHSA / FLUSHPOLICY: for every seq/pid the emitted bytes are one 17-byte message whose kernel-side reading
+    (struct nlmsghdr + struct xfrm_usersa_flush at the C offsets) is: total length, the right type,
+    REQUEST|ACK, seq, pid, proto 0. *)
+Theorem C14_flush : forall r ty seq pid,
+  (r = flush_policies /\ ty = K.XFRM_MSG_FLUSHPOLICY) \/ (r = flush_sas /\ ty = K.XFRM_MSG_FLUSHSA) ->
+  wf32 seq -> wf32 pid ->
+  emit_request r seq pid = Ok (message_bytes r seq pid) /\
+  kernel_decode_flush (message_bytes r seq pid)
+  = Some (mk_kflush (mk_khdr 17 (Z.to_N ty) flags_request_ack (Z.to_N seq) (Z.to_N pid)) 0).
+Proof. exact flush_roundtrip. Qed.
+Print Assumptions C14_flush.
+
+(** DELSA: for ALL addresses (IPv4/IPv6), protocols, 4-byte SPIs, seq, pid: the kernel reads the family of the
+    address, the address itself (a4 / a6), the SPI in network order and the protocol. *)
+Theorem C14_delsa : forall daddr proto spi seq pid,
+  wf_ip daddr -> (0 <= proto < 256)%Z -> List.length spi = 4 -> wf32 seq -> wf32 pid ->
+  let r := delete_sa daddr proto spi in
+  emit_request r seq pid = Ok (message_bytes r seq pid) /\
+  kernel_decode_delsa (message_bytes r seq pid)
+  = Some (mk_ksaid (mk_khdr 40 (Z.to_N K.XFRM_MSG_DELSA) flags_request_ack (Z.to_N seq) (Z.to_N pid))
+                   (family_of daddr) (ip_packed daddr) (be_decode spi) (Z.to_N proto)).
+Proof. exact delsa_roundtrip. Qed.
+Print Assumptions C14_delsa.
